@@ -1,6 +1,12 @@
 #include <fault/util.hpp>
 
 #include <yaclib/fault/injector.hpp>
+#ifdef YACLIB_VERIF
+#  include <yaclib/fault/verif.hpp>
+#  if YACLIB_FAULT == 2
+#    include <yaclib/fault/detail/fiber/scheduler.hpp>
+#  endif
+#endif
 
 #include <yaclib_std/thread>
 
@@ -27,6 +33,18 @@ bool Injector::NeedInject() noexcept {
   if (_pause) {
     return false;
   }
+#ifdef YACLIB_VERIF
+  if (verif::gHooks.preempt != nullptr) {
+    int others = 1;
+#  if YACLIB_FAULT == 2
+    auto* scheduler = fault::Scheduler::GetScheduler();
+    others = fault::Scheduler::Current() != nullptr && scheduler != nullptr && scheduler->HasOthers() ? 1 : 0;
+#  endif
+    if (int r = verif::gHooks.preempt(verif::gHooks.ctx, others); r >= 0) {
+      return r != 0;
+    }
+  }
+#endif
   if (_count.fetch_add(1, std::memory_order_relaxed) >= sYieldFrequency) {
     Reset();
     return true;
